@@ -5,6 +5,8 @@ package main
 import (
 	"fmt"
 	"go/types"
+	"math"
+	"regexp"
 	"strings"
 
 	"golang.org/x/tools/go/ssa"
@@ -385,6 +387,29 @@ func init() {
 			return MkBool(was)
 		}
 		return tFalse
+	}
+
+	// ---------- regexp: compiled natively, matched natively on concrete strings ----------
+	intrinsics["regexp.MustCompile"] = func(m *Machine, fr *frame, a []Value) Value {
+		var cell Value = &Native{Kind: "regexp", Data: regexp.MustCompile(m.argStr(a[0], "regexp pattern"))}
+		return &cell
+	}
+	intrinsics["(*regexp.Regexp).MatchString"] = func(m *Machine, fr *frame, a []Value) Value {
+		re := (*a[0].(*Value)).(*Native).Data.(*regexp.Regexp)
+		return MkBool(re.MatchString(m.argStr(a[1], "regexp subject")))
+	}
+
+	// ---------- math (concrete only) ----------
+	for name, f := range map[string]func(float64) float64{"math.Floor": math.Floor, "math.Ceil": math.Ceil, "math.Trunc": math.Trunc, "math.Abs": math.Abs, "math.archFloor": math.Floor} {
+		f := f
+		name := name
+		intrinsics[name] = func(m *Machine, fr *frame, a []Value) Value {
+			t := a[0].(*Term)
+			if !t.IsConst() {
+				panic(unsupported{name + " on symbolic float"})
+			}
+			return MkFP(f(t.FVal()))
+		}
 	}
 
 	// ---------- errors / fmt ----------
